@@ -527,6 +527,11 @@ class Engine(Interp):
             x.keys = z3.Const(fresh_name(path + '.keys'), BoolArr)
             x.nk = z3.Int(fresh_name(path + '.nk'))
             self.st.assume(x.nk >= 0)
+            kty = (ty or '')[5:].split('->')[0] if (ty or '').startswith('dict:') else ''
+            if kty in self.spec.entities:
+                q = z3.Int(fresh_name('dk'))
+                self.st.assume(z3.ForAll([q], z3.Implies(z3.Select(x.keys, q), z3.And(q > 0, z3.Select(self.alloc0(), q))),
+                                         patterns=[z3.Select(x.keys, q)]))
             if x.vkind == 'list' or (ty or '').endswith('->list'):
                 x.vcnt = z3.Const(fresh_name(path + '.vcnt'), z3.ArraySort(I, IntArr))
                 x.vn = z3.Const(fresh_name(path + '.vn'), IntArr)
@@ -890,7 +895,11 @@ class Engine(Interp):
             else:
                 self.st.locals[ln] = self._havoc_leaf(cur, f"{name}.{ln}", set())
         for ms in spec.modifies:
-            self.havoc_loc(self.resolve_loc(ms, self.st.locals), f"{name}.{ms}")
+            loc = self.resolve_loc(ms, self.st.locals)
+            self.havoc_loc(loc, f"{name}.{ms}")
+            et = getattr(spec, 'elem_types', {}).get(ms)
+            if et and isinstance(loc, ListObj):
+                loc.elem = et
         if kind == 'range':
             i = z3.Real(fresh_name('i'))
             self.st.assume(z3.IsInt(i))
